@@ -372,7 +372,7 @@ func decCase(c *Ctx, i int64) {
 	switch {
 	case i2 < p.nValid:
 		// valid compressed blocks into every destination length around the true size
-		data, cl := gen.Source(g, c.Repo, 3000)
+		data, cl := gen.DrawSource(g, c.Repo, 3000)
 		if g.N(3) == 0 {
 			data = gen.LZBuilt(g, 200+g.N(2000))
 		}
@@ -395,7 +395,7 @@ func decCase(c *Ctx, i int64) {
 		var base []byte
 		var dict []byte
 		if g.Bool() {
-			data, _ := gen.Source(g, c.Repo, 600)
+			data, _ := gen.DrawSource(g, c.Repo, 600)
 			buf := make([]byte, lz4.CompressBlockBound(len(data)))
 			n, _ := lz4.CompressBlock(data, buf, nil)
 			base = buf[:n]
